@@ -134,6 +134,7 @@ package ociregistry
 // return ErrorSeq(e); what that iterator does is the contract of its closure.
 //@ func ErrorSeq
 //@   pure
+//@   ensures result != nil
 
 //@ func ErrorSeq$1
 //@   ensures[yields-exactly-the-error] calls == [yield(_, err)]
